@@ -8,7 +8,13 @@ PRELUDE = 'X = "a" | "b"\nPair(x) = [x, x]\nclass K { v: /[ab]/ }\n'
 INNERS = [('literal', '"a"', ''), ('rule', 'X', ''), ('regex', '/[ab]/', ''), ('template-call', 'Pair("a")', ''),
           ('class', 'K', ''), ('parameter-as-parser', 'x', 'TEMPLATE'), ('sequence-of-rules', '[X, X]', ''),
           ('choice', '("zz" | X)', ''), ('inline-read', '[`q`]', 'let q = /[ab]/ in '),
-          ('count-read', '"a"{n}', 'let n = `1` in ')]
+          ('count-read', '"a"{n}', 'let n = `1` in '),
+          ('empty-literal', '""', ''), ('case-insensitive-literal', '"A"i', ''), ('lookahead', 'Expect("a") >> "a"', ''),
+          ('repetition', '"a"+', ''), ('separated', '("a" // "b")', ''), ('fail', 'Fail()', '')]
+# bytes mode: every literal kind of a binary grammar
+BPRELUDE = 'X = b"a" | b"b"\nPair(x) = [x, x]\nclass K { v: b/[ab]/ }\n'
+BINNERS = [('byte', '0x61', ''), ('bytes-literal', 'b"a"', ''), ('bytes-regex', 'b/[ab]/', ''), ('bytes-rule', 'X', ''),
+           ('byte-sequence', '[0x61, 0x62]', ''), ('bytes-class', 'K', ''), ('empty-bytes-literal', 'b""', '')]
 WRAPPERS = {
     'seq': lambda e: f'[{e}]',
     'group': lambda e: f'({e})',
@@ -21,10 +27,16 @@ MIXES = [['seq', 'opt'], ['seq', 'choice-failing-branch', 'group'], ['opt', 'fai
 TEXTS = ['a', 'aa', 'b', 'ab', '', 'ba', 'c', 'a ', ' a', ' a a ']
 
 
-def wrap(inner, kinds, depth):
+def wrap(inner, kinds, depth, bytes_mode=False):
     e = inner
     for i in range(depth):
-        e = WRAPPERS[kinds[i % len(kinds)]](e)
+        k = kinds[i % len(kinds)]
+        if bytes_mode and k == 'choice-failing-branch':
+            e = f'(b"zz" | {e})'
+        elif bytes_mode and k == 'right':
+            e = f'(b"" >> {e})'
+        else:
+            e = WRAPPERS[k](e)
     return e
 
 
@@ -49,6 +61,21 @@ def jobs_for(tier, rnd):
                             body = 'start = ' + prefix + wrap(inner, kinds, d)
                         desc = head + body + '\n' + PRELUDE + ('ignore " "\n' if ign else '')
                         jobs.append((len(jobs), desc, TEXTS, {'fuel': 4 * d + 60, 'inner': iname, 'wrappers': '+'.join(kinds), 'depth': d}))
+                gid += 1
+    # binary grammars
+    for (iname, inner, prefix) in BINNERS:
+        for kinds in combos:
+            for d in depths:
+                if tier == 'quick' and (gid * 7 + d) % 3 and d not in (12, 14, 16, 17, 18, 20, 22):
+                    gid += 1
+                    continue
+                for named in (False, True):
+                    for ign in (False, True):
+                        if tier == 'quick' and named != ign and d % 2:
+                            continue
+                        head = f'grammar c17b{gid}n{int(ign)}\n' if named else ''
+                        desc = head + 'start = ' + wrap(inner, kinds, d, True) + '\n' + BPRELUDE + ('ignore b/\\x20+/\n' if ign else '')
+                        jobs.append((len(jobs), desc, TEXTS, {'fuel': 4 * d + 60, 'inner': iname, 'wrappers': '+'.join(kinds), 'depth': d, 'bytes': True}))
                 gid += 1
     return jobs
 
